@@ -12,6 +12,21 @@ NA = {
  "C45": "division planning: bisect/drift arithmetic over the data",
  "C47": "file round trips: byte-level parsing, pandas and pyarrow behaviour",
 }
+def _rules_note(pid):
+    """The rule ids evaluated in the last run (from the evidence file): the EXPLANATION names the rule
+    families the module started with, site rules were added per seeded change."""
+    try:
+        ev = json.load(open(f"/verif/evidence/{pid}.json"))
+        rules = ev["coverage"]["rules"]
+        if isinstance(rules, str):
+            import ast as _ast
+            rules = _ast.literal_eval(rules)
+        short = sorted({r.split(".", 1)[1] for r in rules})
+        return "  Rules evaluated (each decides one named structural clause, not the behaviour as a whole): " + ", ".join(short) + "."
+    except Exception:
+        return ""
+
+
 checks, na = [], []
 for p in props:
     pid = p["id"]
@@ -25,7 +40,7 @@ for p in props:
             "replay_cmd_template": "bin/sa explain {path}",
             "engine": "sa",
             "level_claimed": {"category": "other",
-                "text": "static analysis of the current source: " + m.EXPLANATION,
+                "text": "static analysis of the current source: " + m.EXPLANATION + _rules_note(pid),
                 "design_ref": f"DESIGN.md {pid}"},
             "level_note": "trusted base: CPython ast, sa/srcmodel.py resolution, sa/cfg.py dominators, the idiom catalogue in sa/rules/%s.py; assumptions: %s" % (pid, "; ".join(getattr(m, "ASSUMPTIONS", [])) or "none"),
             "technique": getattr(m, "TECHNIQUE", "static analysis: ast pattern rules + CFG dominance/post-dominance + reaching definitions over /repo source (no execution)"),
